@@ -183,6 +183,9 @@ def run_all(tier, seed):
     try:
         ds = sorted((d for d in glob.glob(os.path.join(CACHE, '*')) if os.path.isdir(d) and d != cdir), key=os.path.getmtime, reverse=True)
         for d in ds[40:]:
+            # never an entry a concurrent run may still be writing to or reading from
+            if time.time() - os.path.getmtime(d) < 2 * 3600:
+                continue
             import shutil
             shutil.rmtree(d, ignore_errors=True)
     except Exception:
